@@ -14,6 +14,8 @@ RULE = ("generated: programs of 3-40 statements inside D9 (double/single-operand
         "of k*label, label*k, '.', constants (so base coefficients -2..3 occur: label, label+k, label-label2, 2*a-b, -a, constants as "
         "relative targets), with the set of absolute references known by construction; each program assembled at a triple of link bases "
         "via a prepended '.link b' (even, mixed parity, near 0, near 0o177776 incl. wrap where a label >= 2^16 makes an absolute word fail). "
+        "Also position-independent programs (own labels and '.' only through branches, sob and relative operands, no absolute reference) at "
+        "triples with link bases where the addresses wrap through 0o177777: they must assemble at every base, to identical images. "
         "Also programs with 1-2 included files (impl.assemble fs=): ordinary includes, whose labels move with the main base, and overlays whose "
         "first statement is '. = N' or '.link N' (N well above and below the main bases), whose labels are fixed; absolute and relative "
         "references in both directions between main and included code through exported labels; these are judged by the law alone and must "
@@ -119,10 +121,24 @@ def gen_expr(rng, nlabels, kind):
     return e
 
 
+_PIC = [False]      # position-independent programs: no absolute reference, '.' used often
+
+
 def gen_operand(rng, nlabels, allow_reg=True):
     """returns (mode bits, extension ('abs'|'rel', expr) or None, source text maker)"""
     r = rng.random()
     n = rng.randrange(6)
+    if _PIC[0]:
+        if r < 0.12 and allow_reg:
+            return n, None, lambda L: "r%d" % n
+        if r < 0.25:
+            return 0o20 | n, None, lambda L: "(r%d)+" % n
+        e = gen_expr(rng, nlabels if rng.random() < 0.6 else 0, "addr")
+        if e[0][0] < 0:
+            e = [(1, ("here",), True)] + e
+        if r < 0.85:
+            return 0o67, ("rel", e), lambda L: e_src(e, L)
+        return 0o77, ("rel", e), lambda L: "@" + e_src(e, L)
     if r < 0.14 and allow_reg:
         return n, None, lambda L: "r%d" % n
     if r < 0.22:
@@ -212,14 +228,14 @@ def gen_program(rng, allow_word, align_mods, base0=0, nst=None):
         elif r < 0.66:
             reg = rng.randrange(6)
             stmts.append(Stmt("sob", reg, [("sob", 0o077000 | reg << 6, None)], 2))
-        elif r < 0.78 and allow_word:
+        elif r < 0.78 and allow_word and not _PIC[0]:
             es = [gen_expr(rng, nlabels, "any") for _ in range(rng.choice([1, 1, 2, 3]))]
             stmts.append(Stmt("word", lambda L, es=es: ".word " + ", ".join(e_src(e, L) for e in es),
                               [("needeven",)] + [("abs", e) for e in es], 2 * len(es)))
         elif r < 0.86:
             n = rng.choice([1, 1, 2, 3])
             vals = [rng.choice([0, 1, 5, 0o177, 0o377, 0o12]) for _ in range(n)]
-            if rng.random() < 0.3:
+            if rng.random() < 0.3 and not _PIC[0]:
                 stmts.append(Stmt("bytediff", None, [("bytediff", None)], 1))
             else:
                 stmts.append(Stmt("byte", lambda L, vals=vals: ".byte " + ", ".join("%o" % v for v in vals), [("fixed", vals)], n))
@@ -272,9 +288,9 @@ def finish_program(rng, stmts, labpos, base0):
             lo, hi = (here + 2 - 126, here + 2) if want_back else (here + 2 - 256, here + 2 + 254)
             cands = [i for i, o in enumerate(laboff) if lo <= o <= hi and (o - here) % 2 == 0]
             r = rng.random()
-            if cands and r < 0.96:
+            if cands and r < (0.5 if _PIC[0] else 0.96):
                 e = [(1, ("lab", rng.choice(cands)), True)]
-            elif r < 0.99:
+            elif r < 0.99 or _PIC[0]:
                 d = rng.choice([-4, -2, 0, 2] if want_back else [-6, -2, 0, 2, 4, 0o20])
                 e = [(1, ("here",), True)] + ([(1 if d > 0 else -1, ("k", abs(d)), True)] if d else [])
             else:
@@ -385,6 +401,24 @@ def make_case(rng):
             "last": [rng.random() < 0.5 for _ in bases], "kinds": sorted({s.kind for s in stmts})}
 
 
+def make_pic_case(rng):
+    """position-independent programs (own labels and '.' only through branches, sob and relative operands) at a triple
+    that contains link bases where the addresses wrap through 0o177777: identical images, and none may be rejected"""
+    _PIC[0] = True
+    try:
+        stmts, labpos = gen_program(rng, False, [], 0, nst=rng.choice([5, 8, 12, 20, 30]))
+        body, items, aw, total, nfield = finish_program(rng, stmts, labpos, 0)
+    finally:
+        _PIC[0] = False
+    assert not aw
+    wrap = lambda: min(65535, 65536 - rng.randrange(1, max(2, total)))
+    bases = list(dict.fromkeys([rng.choice([0o1000, 0, 0o40000, 0o1001]), wrap(), wrap(), 65535]))[:3]
+    while len(bases) < 3:
+        bases.append(65536 - total // 2 - len(bases))
+    return {"bases": bases, "body": body, "items": items, "aw": aw, "nfield": nfield, "total": total, "pic": True,
+            "last": [rng.random() < 0.5 for _ in bases], "kinds": sorted({s.kind for s in stmts} | {"pic"})}
+
+
 def at_base(body, b, last=False):
     """the transformation at_base b: `.link b` before the program -- or after it, where every address is
     still a polynomial in the unknown base while the program is compiled"""
@@ -454,6 +488,11 @@ def run_cases(rep, cases, tag):
                 "errors": sorted({d[1] for d in o["diags"] if d[0] != "warning"}), "crash": o.get("crash")} for b, o in zip(c["bases"], c["outs"])]
         if any(o["outcome"] in ("crash", "hang", "harness-error") for o in c["outs"]):
             rep.violate("crash:" + str([o.get("crash") for o in c["outs"]])[:80], "the assembler crashed or hung", files, impl=obs)
+            continue
+        if c.get("pic") and len(oks) < 3:
+            rep.violate("pic-rejected:" + c["body"][:50], "a program that refers to its own labels and to '.' only through branches and relative "
+                        "operands (and whose branches are in reach) was rejected at a link base -- position-independent code assembles to the "
+                        "same bytes at every base, also where its addresses wrap through 0o177777", files, impl=obs)
             continue
         if code & 1:
             rep.disagree("Model.Reloc image / abs_words vs the implementation at some base", {**files, "items": c["items"], "abs_by_construction": c["aw"]}, impl=obs)
@@ -636,7 +675,7 @@ def explore(rep, br, tier, seed):
     rng = random.Random(seed)
     polycorr.run(rep, ID, random.Random(seed + 9), 250 if tier == "quick" else 4000)
     n = 360 if tier == "quick" else 4000
-    cases = [make_case(rng) for _ in range(n)]
+    cases = [make_case(rng) for _ in range(n)] + [make_pic_case(rng) for _ in range(n // 6)]
     run_cases(rep, cases, "")
     inc = [make_inc_case(rng) for _ in range(120 if tier == "quick" else 1500)]
     run_inc_cases(rep, inc, "_inc")
